@@ -1052,19 +1052,22 @@ RunK(c, k) == IF c.ctl.m = "done" THEN c
               ELSE IF k = 0 THEN Step(c)
               ELSE RunK(RunK(c, k - 1), k - 1)
 
+SetToSeq(S) == LET RECURSIVE F(_) 
+                    F(T) == IF T = {} THEN <<>> ELSE LET x == CHOOSE x \in T : TRUE IN <<x>> \o F(T \ {x})
+                IN F(S)
 (* Observable outcome of a finished (or out-of-fuel) configuration. *)
 Outcome0(c) ==
     IF c.ctl.m # "done" THEN [status |-> "fuel", out |-> c.out]
     ELSE IF c.ctl.st = "unspec" THEN [status |-> "unspec", why |-> c.ctl.why, out |-> c.out, steps |-> c.n]
     ELSE IF c.ctl.st = "ok" THEN
         [status |-> "ok", out |-> c.out, steps |-> c.n,
+         \* the final top-level environment (observable values only): what export_top_level_ids exports (C18)
+         topenv |-> LET names == SetToSeq({x \in DOMAIN c.env : Observable(c.store, c.env[x], 6)}) IN
+                    [i \in 1 .. Len(names) |-> <<"v", names[i], Disp(c.store, c.env[names[i]], FALSE)>>],
          observable |-> Observable(c.store, c.ctl.v, 6),
          value |-> IF Observable(c.store, c.ctl.v, 6) THEN Disp(c.store, c.ctl.v, FALSE) ELSE "",
          vtype |-> TypeName(c, c.ctl.v)]
     ELSE [status |-> "err", out |-> c.out, steps |-> c.n, cls |-> c.ctl.cls, kind |-> c.ctl.kind,
           msg |-> IF c.ctl.v.t = "str" THEN c.ctl.v.v ELSE "", trace |-> c.ctl.trace, at |-> c.ctl.at]
-SetToSeq(S) == LET RECURSIVE F(_) 
-                    F(T) == IF T = {} THEN <<>> ELSE LET x == CHOOSE x \in T : TRUE IN <<x>> \o F(T \ {x})
-                IN F(S)
 Outcome(c) == [used |-> SetToSeq(c.used)] @@ Outcome0(c)
 =============================================================================
